@@ -257,6 +257,13 @@ def gen_lines(ctx):
         n = rng.choice([1, 2, 3, 4, 5, 6, 8, 12, 20])
         b = bytes(rng.choice(ALPHA_T + [rng.randrange(256)]) for _ in range(n))
         items.append((b, rng.choice(["udp", "tcp"]), "random"))
+    for tkl in (0, 1, 8):
+        for pay in (b"", b"\xffp"):
+            for opts in (b"", b"\xb1a"):
+                tok = bytes(range(0x31, 0x31 + tkl))
+                items.append((bytes([0x60 | tkl, 0x00 if not (opts or pay) else 0x45, 0x42, 0x42]) + tok + opts + pay, "udp", "structured"))
+                body = opts + pay
+                items.append((bytes([len(body) << 4 | tkl, 0x45]) + tok + body, "tcp", "structured"))
     lines = []
     seen = set()
     for b, coder, origin in items:
@@ -272,8 +279,11 @@ def gen_lines(ctx):
         pooled = origin in ("structured", "valid", "cross", "lenient") or (origin in ("mutation", "random") and rng.random() < 0.35) \
             or (origin == "exhaustive" and rng.random() < (0.01 if thorough else 0.03))
         if pooled:
-            kind, cap = rng.choice([("fresh", 0), ("recycled", 0), ("recycled", 1), ("recycled", 16), ("recycled", 2)])
+            kind, cap = rng.choice([("fresh", 0), ("recycled", 0), ("recycled", 1), ("recycled", 16), ("recycled", 2), ("loaded", 0)])
             lines.append("pdec %s %s %d %s" % (coder, kind, cap, h))
+            if origin in ("structured", "valid", "lenient") or (len(b) <= 12 and rng.random() < 0.5):
+                # target message that already carries a token and a body (udp/client's response cache decodes like this)
+                lines.append("pdec %s loaded 0 %s" % (coder, h))
             if origin == "structured":
                 lines.append("pdec %s recycled 0 %s" % (coder, h))
                 lines.append("pdec %s fresh 0 %s" % (coder, h))
@@ -316,7 +326,7 @@ def shrink(art, line, clause):
 # ---------------------------------------------------------------- receive paths (owns-its-bytes)
 
 RX_OPTS = [4, 11, 11, 12, 15, 17, 2000, 2013, 300]
-RX_OPS = ("rxtcp", "rxudp", "rxmon", "usrv2")
+RX_OPS = ("rxtcp", "rxudp", "rxmon", "usrv2", "rxack")
 
 
 def rx_msg(rng, mid):
@@ -337,10 +347,24 @@ def gen_rx_lines(ctx):
         if k % 2 == 0:
             na = rng.choice([1, 1, 2, 3, 5, 8])
             a = [G.encode_tcp(rx_msg(rng, 0)) for _ in range(na)]
+            if k % 4 == 0:
+                # a frame larger than the connection cache (2048) followed in the same write by small complete frames
+                bigm = rx_msg(rng, 0)
+                bigm["pay"] = G.rbytes(rng, rng.choice([2049, 2100, 3000, 4096, 5000, 9000, 20000]))
+                a.insert(rng.randrange(0, max(1, len(a) - 1)), G.encode_tcp(bigm))
+                if a[-1] is a[0] or len(a) < 2:
+                    a.append(G.encode_tcp(rx_msg(rng, 0)))
             b = []
+            if sum(map(len, a)) > 2000:
+                # later traffic as long as the first batch, in few frames (the receive queue holds 128 messages)
+                filler = rx_msg(rng, 0)
+                filler["pay"] = G.rbytes(rng, sum(map(len, a)))
+                b.append(G.encode_tcp(filler))
             while sum(map(len, b)) < sum(map(len, a)) + 16 or len(b) < 1:
                 b.append(G.encode_tcp(rx_msg(rng, 0)))
             split = rng.choice([0, 0, 1, 2, 3, 5, 7, 16, rng.randrange(1, 64)])
+            if k % 4 == 0:
+                split = rng.choice([0, 0, 0, 4096, 1000])
             lines.append("rxtcp %d %d %d %s" % (split, len(a), len(b), " ".join(hx(f) for f in a + b)))
         else:
             nd = rng.choice([2, 2, 3, 5, 9])
@@ -378,6 +402,23 @@ def gen_rxmon_lines(ctx):
         enc = G.encode_udp if via == "udp" else G.encode_tcp
         split = rng.choice([0, 0, 0, 1, 3, 7, 16, 64])
         lines.append("rxmon %s %d %d %s" % (via, split, cnt, " ".join(hx(enc(m)) for m in msgs)))
+    return lines
+
+
+def gen_rxack_lines(ctx):
+    """Confirmable requests answered by an Empty ACK (handler sets no response), then duplicates of them."""
+    rng = random.Random(ctx.seed * 49979687 + 7)
+    lines = []
+    for k in range(200 if ctx.tier == "thorough" else 30):
+        nreq = rng.choice([1, 2, 3, 5])
+        steps = []
+        for i in range(nreq):
+            steps.append("r:%d:%s:%s" % ((9000 + 31 * k + i) % 65536, hx(G.rbytes(rng, rng.choice([0, 1, 4, 8, 8]))),
+                                         hx(G.rbytes(rng, rng.choice([0, 3, 20])))))
+            if rng.random() < 0.6:
+                steps.append("d:%d" % rng.randrange(i + 1))
+        steps.append("d:0")
+        lines.append("rxack %d %s" % (len(steps), " ".join(steps)))
     return lines
 
 
@@ -421,6 +462,11 @@ def shrink_rx(ctx, art, line, clause="owns-its-bytes"):
             for bb in ([b[0]], b[:2], b):
                 for sp in ("0", f[1]):
                     cands.append("rxtcp %s %d %d %s" % (sp, len(aa), len(bb), " ".join(aa + bb)))
+    elif f[0] == "rxack":
+        news = [x for x in f[2:] if x.startswith("r:")]
+        for x in news:
+            cands.append("rxack 2 %s d:0" % x)
+        cands.append(line)
     elif f[0] == "usrv2":
         first = {}
         for x in f[4:]:
@@ -455,7 +501,7 @@ def explore_rx(ctx, art):
     corpus = []
     for p in sorted(glob.glob(os.path.join(common.VERIF, "corpus", PROP, "*.json"))):
         corpus += [l for l in json.load(open(p)).get("input", []) if l.split()[0] in RX_OPS]
-    lines = corpus + gen_rx_lines(ctx) + gen_rxmon_lines(ctx) + gen_usrv2_lines(ctx)
+    lines = corpus + gen_rx_lines(ctx) + gen_rxmon_lines(ctx) + gen_usrv2_lines(ctx) + gen_rxack_lines(ctx)
     impl, model, verd = evaluate_rx(ctx, art, lines)
     if impl is None:
         ctx.broken.append(("correspondence", "C02 receive-path harness run failed", ""))
@@ -481,7 +527,10 @@ def explore_rx(ctx, art):
             if verd[i].startswith("violates"):
                 hits.setdefault(verd[i].split(" ", 1)[1], []).append((l, o))
     ctx.cov["rx_messages_delivered"] = delivered
-    what = {"each-peer-gets-its-own-bytes": "a peer's message was decoded from bytes another peer sent (the receive buffer was reused "
+    what = {"each-frame-once": "the stream session did not deliver exactly the frames of the stream, once each",
+            "cached-reply-as-sent": "a reply re-sent from the response cache (decoded into a response message that already carried the "
+                                    "request's token) is not the datagram that was sent the first time",
+            "each-peer-gets-its-own-bytes": "a peer's message was decoded from bytes another peer sent (the receive buffer was reused "
                                             "before the datagram was processed)",
             "owns-its-bytes": "a message still queued / in its handler changed when later input was read",
             "reused-message-as-fresh": "a message decoded behind a frame the request monitor dropped does not have the fields of "
